@@ -177,5 +177,13 @@ Theorem final_box_spec (S D : Type) beq (cli tbox : option (S * S * S)) (dens : 
   end.
 Proof. destruct tbox as [b|]; [rewrite box_structure_wins|rewrite box_cli_otherwise; destruct cli]; reflexivity. Qed.
 
+(* ---- mass lookup ---- *)
+Theorem mass_lookup (M : Type) (e t : option M) :
+  (forall m, e = Some m -> atom_mass e t = Some m) /\ (e = None -> atom_mass e t = t).
+Proof. split; [intros m ->; reflexivity|intros ->; reflexivity]. Qed.
+Lemma gen_mass_guards : explicit_mass_guard = ["'mass' in molecule.nodes[node]"]%string /\
+                        type_mass_guard = ["not ('mass' in molecule.nodes[node])"]%string.
+Proof. split; reflexivity. Qed.
+
 Example ex_compose : compose 20 (fun idx a => (idx + 1 <=? a)) 0 0 [false; true; false] = Some [true; true; true].
 Proof. vm_compute. reflexivity. Qed.
